@@ -103,6 +103,15 @@ func NewReferenceRecord(view *View, recordIdx int, cacheLen int) ReferenceRecord
 	}
 }
 
+// copyForChildScope returns the record with a field index cache of its own. Scopes that are created from
+// the same scope are used by different goroutines at the same time, and all of them write to the cache.
+func (r ReferenceRecord) copyForChildScope() ReferenceRecord {
+	if r.cache != nil {
+		r.cache = r.cache.Copy()
+	}
+	return r
+}
+
 func (r *ReferenceRecord) IsInRange() bool {
 	return -1 < r.recordIndex && r.recordIndex < r.view.RecordLen()
 }
@@ -121,6 +130,25 @@ func NewFieldIndexCache(initCap int, limitToUseSlice int) *FieldIndexCache {
 		exprs:           make([]parser.QueryExpression, 0, initCap),
 		indices:         make([]int, 0, initCap),
 	}
+}
+
+// Copy returns a cache that holds the same entries and shares nothing with the receiver.
+func (c *FieldIndexCache) Copy() *FieldIndexCache {
+	cp := &FieldIndexCache{
+		limitToUseSlice: c.limitToUseSlice,
+	}
+	if c.m != nil {
+		cp.m = make(map[parser.QueryExpression]int, len(c.m))
+		for k, v := range c.m {
+			cp.m[k] = v
+		}
+	} else {
+		cp.exprs = make([]parser.QueryExpression, len(c.exprs), cap(c.exprs))
+		copy(cp.exprs, c.exprs)
+		cp.indices = make([]int, len(c.indices), cap(c.indices))
+		copy(cp.indices, c.indices)
+	}
+	return cp
 }
 
 func (c *FieldIndexCache) Get(expr parser.QueryExpression) (int, bool) {
@@ -187,7 +215,7 @@ func (rs *ReferenceScope) CreateScopeForRecordEvaluation(view *View, recordIndex
 	records := make([]ReferenceRecord, len(rs.Records)+1)
 	records[0] = NewReferenceRecord(view, recordIndex, view.FieldLen())
 	for i := range rs.Records {
-		records[i+1] = rs.Records[i]
+		records[i+1] = rs.Records[i].copyForChildScope()
 	}
 	return rs.createScope(records)
 }
@@ -200,7 +228,7 @@ func (rs *ReferenceScope) CreateScopeForAnalytics() *ReferenceScope {
 	records := make([]ReferenceRecord, len(rs.Records))
 	records[0] = NewReferenceRecord(rs.Records[0].view, -1, rs.Records[0].view.FieldLen())
 	for i := 1; i < len(rs.Records); i++ {
-		records[i] = rs.Records[i]
+		records[i] = rs.Records[i].copyForChildScope()
 	}
 	return rs.createScope(records)
 }
